@@ -74,6 +74,36 @@ def run(ctx):
     validate(ctx, obs2, "V-sim")
     total += s2["lines"]
     distinct += s2["executed"]
+    # Leg S: free-running goroutines; only events outside the breaker's mutex are logged, TLC infers where the
+    # critical sections fell (BreakerStress.tla)
+    st = os.path.join(ctx.scratch, "stress.ndjson")
+    s3 = V.harness(ctx, ["cb-stress", "-out", st, "-seed", ctx.seed, "-n", 80 if quick else 2500, "-workers", 4])
+    slines = open(st).read().splitlines(True)
+    chunkruns, cur, part = 600, [], 0
+    runs_in_cur = 0
+    for ln in slines + [None]:
+        if ln is None or (ln.startswith('{"ev":"reset"') and runs_in_cur >= chunkruns):
+            pf = os.path.join(ctx.scratch, "stress.%d.ndjson" % part)
+            open(pf, "w").writelines(cur)
+            for lineno in V.leg_s(ctx, "BreakerStress", "BreakerStress.cfg", pf, label="S%d" % part):
+                # collect the run that ends at this line
+                k = lineno
+                while k > 1 and not cur[k - 1].startswith('{"ev":"reset"'):
+                    k -= 1
+                run_lines = [json.loads(x) for x in cur[k - 1:lineno]]
+                rec = run_lines[-1]
+                V.report(ctx, "C15_NoInterleavingExplains", rec,
+                         "free-running run of %d events: no order of beforeRequest / afterRequest / clock steps explains the observed admissions, rejections and final state %s"
+                         % (len(run_lines), json.dumps(rec["snap"], sort_keys=True)), {"kind": "stress", "events": run_lines})
+            part += 1
+            cur, runs_in_cur = [], 0
+        if ln is not None:
+            if ln.startswith('{"ev":"reset"'):
+                runs_in_cur += 1
+            cur.append(ln)
+    total += s3["lines"]
+    distinct += s3["executed"]
+    ctx.cov["stress_runs"] = s3["executed"]
     ctx.cov["evaluations"] = total
     nontriv = sum(1 for x in lines if x.startswith('{"ev":"reset"')) and sum(1 for x in open(obs) if '"hooks":[[' in x)
     ctx.cov["distinct_nontrivial"] = distinct
@@ -90,6 +120,14 @@ def run(ctx):
 def replay(ctx, path):
     rp = json.load(open(path))
     V.build_harness(ctx)
+    if rp.get("kind") == "stress":
+        # the recorded log itself is the replay: TLC searches it again
+        pf = os.path.join(ctx.scratch, "stress.ndjson")
+        open(pf, "w").write("".join(json.dumps(e) + "\n" for e in rp["events"]))
+        bad = V.leg_s(ctx, "BreakerStress", "BreakerStress.cfg", pf)
+        for _ in bad:
+            V.report(ctx, "C15_NoInterleavingExplains", rp["events"][-1], "recorded free-running run still has no explanation", {"kind": "stress", "events": rp["events"]})
+        return V.finish(ctx, RULE)
     one = os.path.join(ctx.scratch, "one.jsonl")
     open(one, "w").write(json.dumps(rp["behaviour"]["events"]) + "\n")
     obs = os.path.join(ctx.scratch, "cb.ndjson")
